@@ -354,7 +354,7 @@ func runChild(p params) runResult {
 
 	rec := &recorder{rng: rand.New(rand.NewSource(p.Seed*31 + 7)), faults: true, pCAS: p.PCAS, pAnchor: p.PAnchor}
 	cas := &failingCAS{inner: mocks.NewMockCasClient(nil), rec: rec}
-	q := &opqueue.MemQueue{}
+	q := &trackQueue{inner: &opqueue.MemQueue{}}
 	versions := []uint64{100}
 	if p.Versions != "single" {
 		versions = []uint64{100, 200}
@@ -509,7 +509,11 @@ func runChild(p params) runResult {
 		n := len(rec.preps)*1000003 + len(rec.anchors)
 		rec.mu.Unlock()
 		n += int(q.Len()) * 7
-		if n == lastN {
+		if atomic.LoadInt32(&q.inflight) != 0 {
+			// a batch has been removed from the queue and neither acknowledged nor returned yet: the writer goroutine is
+			// still inside its processing step (it may simply not have been scheduled for a while on a loaded machine)
+			stable, lastN = 0, -1
+		} else if n == lastN {
 			stable++
 		} else {
 			stable, lastN = 0, n
@@ -758,6 +762,33 @@ func stopDemo() (out map[string]interface{}) {
 // goroutines), records the queue / handler / anchor calls of every tick and writes a Coq file that
 // compares them with SV.Writer.LivenessLemmas.tick_events (the thread's continuation predicted by
 // the model) under the same failure oracle.
+
+// trackQueue is the library's in-memory queue plus a counter of batches that are in flight (removed by the cutter and
+// neither acknowledged nor returned yet); only the harness's end-of-run quiescence test reads the counter.
+type trackQueue struct {
+	inner    *opqueue.MemQueue
+	inflight int32
+}
+
+func (q *trackQueue) Add(d *operation.QueuedOperation, pv uint64) (uint, error) {
+	return q.inner.Add(d, pv)
+}
+func (q *trackQueue) Peek(n uint) (operation.QueuedOperationsAtTime, error) { return q.inner.Peek(n) }
+func (q *trackQueue) Len() uint                                             { return q.inner.Len() }
+func (q *trackQueue) Remove(n uint) (operation.QueuedOperationsAtTime, func() uint, func(error), error) {
+	ops, ack, nack, err := q.inner.Remove(n)
+	if err != nil {
+		return ops, ack, nack, err
+	}
+	atomic.AddInt32(&q.inflight, 1)
+	return ops, func() uint {
+			defer atomic.AddInt32(&q.inflight, -1)
+			return ack()
+		}, func(e error) {
+			defer atomic.AddInt32(&q.inflight, -1)
+			nack(e)
+		}, nil
+}
 
 type evQueue struct {
 	inner *opqueue.MemQueue
